@@ -1491,3 +1491,12 @@ Proof.
   - destruct (add_path_to_tree t tsep path sep false na) as [t1 [p|e]] eqn:Ha; [|discriminate].
     eapply IH; [|exact H]. eapply add_path_false_names; eauto.
 Qed.
+
+Theorem add_path_order t tsep path sep na t' p q s s' :
+  add_path_to_tree t tsep path sep true na = (t', Ret p) ->
+  subtree_at t q = Some s -> subtree_at t' q = Some s' ->
+  exists extra, map tname (tkids s') = map tname (tkids s) ++ extra /\ length extra <= 1.
+Proof.
+  intros H Hs Hs'. destruct (add_path_reuses _ _ _ _ _ _ _ H) as [Hr _].
+  destruct (Hr q s Hs) as (s1 & Hs1 & _ & _ & He). rewrite Hs' in Hs1. inversion Hs1; subst. exact He.
+Qed.
